@@ -127,6 +127,10 @@ def run(ctx):
                 xn = optical_signal(x.noise)
                 law("MZM-noise-modulated-like-signal", o.noise, MZM(xn, u, bias, Vpi, loss, ER, pol).signal)
             law("drive-kinds-agree-MZM", MZM(x, electrical_signal(u), bias, Vpi, loss, ER, pol).signal, o.signal)
+            if n >= 64:
+                from opticomlib.devices import BPF
+                bw = rnd.uniform(0.05, 0.9) * gv.fs
+                law("MZM(BW)=BPF(MZM)", np.atleast_2d(MZM(x, u, bias, Vpi, loss, ER, pol, BW=bw).signal) + 10, np.atleast_2d(BPF(o, bw).signal) + 10)
             law("drive-kinds-agree-MZM", MZM(x, 1.25, bias, Vpi, loss, ER, pol).signal, MZM(x, np.full(n, 1.25), bias, Vpi, loss, ER, pol).signal)
             # on/off ratio = ER
             cw = optical_signal(np.ones(4) * 0.3)
